@@ -38,6 +38,9 @@ pub enum St {
 pub struct Case {
     pub first: StatusDoc,
     pub steps: Vec<St>,
+    /// the configured key directory is a symbolic link to a directory with ordinary permissions (a relocated state folder)
+    #[serde(default)]
+    pub key_dir_is_link: bool,
 }
 
 fn key_shape() -> impl Strategy<Value = KeyShape> {
@@ -77,10 +80,10 @@ fn st() -> impl Strategy<Value = St> {
 }
 
 pub fn strategy() -> impl Strategy<Value = Case> {
-    (enabled_doc(), prop::collection::vec(st(), 2..12)).prop_map(|(first, steps)| Case { first, steps })
+    (enabled_doc(), prop::collection::vec(st(), 2..12), prop::bool::weighted(0.15)).prop_map(|(first, steps, key_dir_is_link)| Case { first, steps, key_dir_is_link })
 }
 
-pub const RULE: &str = "generator: run histories of the real KeyKeeper + ProxyServer with file logging configured exactly as service::start_service does (Trace level), the event logger flushing every 10 ms and the status task writing status.json every 20 ms: status documents (C09), key rotations, failing acquire/attest calls with error bodies, key responses that are well-formed but carry a non-hex or odd-length key or a key id that is a relative path (into a folder that does not exist / that exists next to the key directory), the key directory removed while the agent runs (environment fault, followed by a rotation), status failures, restarts of the agent on the same directories, interleaved with client traffic through the proxy (relayed signed requests, denied requests, direct connections, /provision queries with/without notify, with past/current/future ticks). taint set: every key value delivered in a parseable key response, as given, lower/upper-cased, as raw bytes and as base64 of both. sinks searched after every history: every file under the log directory (incl. connection log and rule dumps), the event directory, the status directory, non-key files of the key directory (status.tag, provisioned.tag), every file next to the key directory, the /dev/console stand-in, the process's stdout/stderr, and every byte returned to the local client. Also after every history: the key directory has mode 0700 and owner root. non-trivial: history with >= 1 successful latch and >= 1 host fault or denied//provision request after it; distinct by hash of the history.";
+pub const RULE: &str = "generator: run histories of the real KeyKeeper + ProxyServer with file logging configured exactly as service::start_service does (Trace level), the event logger flushing every 10 ms and the status task writing status.json every 20 ms: status documents (C09), key rotations, failing acquire/attest calls with error bodies, key responses that are well-formed but carry a non-hex or odd-length key or a key id that is a relative path (into a folder that does not exist / that exists next to the key directory), the key directory removed while the agent runs (environment fault, followed by a rotation), in 15% of the histories the configured key directory is a symbolic link to a directory with ordinary permissions, status failures, restarts of the agent on the same directories, interleaved with client traffic through the proxy (relayed signed requests, denied requests, direct connections, /provision queries with/without notify, with past/current/future ticks). taint set: every key value delivered in a parseable key response, as given, lower/upper-cased, as raw bytes and as base64 of both. sinks searched after every history: every file under the log directory (incl. connection log and rule dumps), the event directory, the status directory, non-key files of the key directory (status.tag, provisioned.tag), every file next to the key directory, the /dev/console stand-in, the process's stdout/stderr, and every byte returned to the local client. Also after every history: the key directory has mode 0700 and owner root. non-trivial: history with >= 1 successful latch and >= 1 host fault or denied//provision request after it; distinct by hash of the history.";
 
 pub struct Env {
     pub stdio_log: Option<PathBuf>,
@@ -255,6 +258,18 @@ pub fn eval(rig: &KeeperRig, env: &mut Env, known: &crate::report::Known, case: 
         s.doc = Some(case.first.to_json());
     });
     let timeout = Duration::from_secs(20);
+    let mut link_target: Option<PathBuf> = None;
+    if case.key_dir_is_link {
+        let (kd, _) = rig.next_dirs();
+        let real = kd.with_file_name(format!("{}-real", kd.file_name().unwrap().to_string_lossy()));
+        let _ = std::fs::create_dir_all(&real);
+        let _ = std::fs::set_permissions(&real, std::fs::Permissions::from_mode(0o755));
+        let _ = std::fs::remove_dir_all(&kd);
+        if std::os::unix::fs::symlink(&real, &kd).is_ok() {
+            stats.class("key-directory:symbolic-link-to-an-ordinary-directory");
+            link_target = Some(real);
+        }
+    }
     let mut agent = rig.start_agent(None);
     // the folder the path-like key ids of KeyShape::GuidPathExisting point to ("../logs" relative to the key directory)
     let beside = agent.key_dir.parent().map(|p| p.join("logs")).unwrap_or_default();
@@ -373,7 +388,7 @@ pub fn eval(rig: &KeeperRig, env: &mut Env, known: &crate::report::Known, case: 
         let mut files = Vec::new();
         walk(parent, &mut files);
         for f in files {
-            if !f.starts_with(&agent.key_dir) {
+            if !f.starts_with(&agent.key_dir) && !link_target.as_ref().map(|t| f.starts_with(t)).unwrap_or(false) {
                 sinks.push(("file-outside-the-key-directory", f));
             }
         }
@@ -413,6 +428,10 @@ pub fn eval(rig: &KeeperRig, env: &mut Env, known: &crate::report::Known, case: 
         let _ = std::fs::remove_file(f);
     }
     let _ = std::fs::remove_dir_all(&agent.key_dir);
+    let _ = std::fs::remove_file(&agent.key_dir);
+    if let Some(t) = &link_target {
+        let _ = std::fs::remove_dir_all(t);
+    }
     let _ = std::fs::remove_dir_all(&agent.log_dir);
     let _ = std::fs::remove_dir_all(&beside);
     if let Some(parent) = agent.key_dir.parent() {
